@@ -712,16 +712,18 @@ Proof. apply (inv_led _ (kq_inv_run c h)). Qed.
 (* ------------------------------------------------------------------ refutations on the tree as it is (cfg_repo) *)
 
 Definition fails (cl : string) (c : cfg) (h : list step) : bool := clause_fails cl (spec_of_model c h).
+Ltac vm := vm_compute; repeat split; try reflexivity; try (let HH := fresh in intros HH; discriminate HH); eauto.
 
 (* F3: Close leaks every watch descriptor *)
 Definition w_close : list step := [SFs (OCreate "f"); SAdd "f"; SClose].
 Theorem close_releases_all_refuted :
-  ∃ h, let s := run cfg_repo h st_init in gone s = true ∧ k_led (K s) ≠ ∅ ∧ fails "close-releases-all" cfg_repo h = true.
-Proof. exists w_close. vm_compute. repeat split; try reflexivity. intros H. discriminate. Qed.
+  ∃ h, let s := run cfg_repo h st_init in gone s = true ∧ ledger_list s = [(1, "f")] ∧ infra s = (false, false, false)
+       ∧ fails "close-releases-all" cfg_repo h = true.
+Proof. exists w_close. vm. Qed.
 (* … and the repaired Close does not, on the same history *)
 Example close_releases_all_fixed_witness :
-  let s := run cfg_fixed w_close st_init in gone s = true ∧ k_led (K s) = ∅ ∧ infra s = (false, false, false) ∧ spec_of_model cfg_fixed w_close = [].
-Proof. vm_compute. auto. Qed.
+  let s := run cfg_fixed w_close st_init in gone s = true ∧ ledger_list s = [] ∧ sizes s = (0, 0, 0, 0, 0) ∧ infra s = (false, false, false) ∧ spec_of_model cfg_fixed w_close = [].
+Proof. vm. Qed.
 
 (* all_removed_empty is false: unclean spelling, FIFO, symlink whose target is watched, renamed directory, FIFO entry *)
 Definition w_unclean : list step := [SFs (OMkdir "d"); SAdd "./d"; SRemove "d"].
@@ -731,30 +733,30 @@ Definition w_dir_renamed : list step := [SFs (OMkdir "d"); SFs (OCreate "d/a"); 
 Definition w_fifo_entry_left : list step := [SFs (OMkdir "d"); SAdd "d"; SFs (OMkfifo "d/p"); SRemove "d"].
 
 Theorem all_removed_empty_refuted :
-  (∃ h, api_list (run cfg_repo h st_init) = ["./d"] ∧ t_wd (T (run cfg_repo h st_init)) = ∅ ∧ fails "removed-not-listed" cfg_repo h = true)
-  ∧ (∃ h, api_list (run cfg_repo h st_init) = ["p"] ∧ t_wd (T (run cfg_repo h st_init)) = ∅ ∧ fails "all-removed-empty" cfg_repo h = true)
-  ∧ (∃ h, let s := run cfg_repo h st_init in api_list s = ["l"] ∧ t_wd (T s) = ∅ ∧ t_path (T s) !! "l" = Some 0 ∧ fails "remove-of-added-fails" cfg_repo h = true)
-  ∧ (∃ h, let s := run cfg_repo h st_init in api_list s = [] ∧ k_led (K s) ≠ ∅ ∧ fails "all-removed-empty" cfg_repo h = true)
-  ∧ (∃ h, let s := run cfg_repo h st_init in api_list s = [] ∧ t_wd (T s) = ∅ ∧ t_seen (T s) ≠ ∅ ∧ fails "all-removed-empty" cfg_repo h = true).
+  (∃ h, let s := run cfg_repo h st_init in api_list s = ["./d"] ∧ sizes s = (0, 0, 0, 0, 1) ∧ fails "removed-not-listed" cfg_repo h = true)
+  ∧ (∃ h, let s := run cfg_repo h st_init in api_list s = ["p"] ∧ sizes s = (0, 0, 0, 0, 1) ∧ fails "all-removed-empty" cfg_repo h = true)
+  ∧ (∃ h, let s := run cfg_repo h st_init in api_list s = ["l"] ∧ sizes s = (0, 1, 0, 1, 1) ∧ t_path (T s) !! "l" = Some 0 ∧ fails "remove-of-added-fails" cfg_repo h = true)
+  ∧ (∃ h, let s := run cfg_repo h st_init in api_list s = [] ∧ ledger_list s = [(2, "d/a")] ∧ sizes s = (1, 1, 1, 1, 0) ∧ fails "all-removed-empty" cfg_repo h = true)
+  ∧ (∃ h, let s := run cfg_repo h st_init in api_list s = [] ∧ ledger_list s = [] ∧ sizes s = (0, 0, 0, 1, 0) ∧ fails "all-removed-empty" cfg_repo h = true).
 Proof.
-  split; [exists w_unclean; vm_compute; auto|].
-  split; [exists w_fifo; vm_compute; auto|].
-  split; [exists w_link_target; vm_compute; auto|].
-  split; [exists w_dir_renamed; vm_compute; repeat split; try reflexivity; intros H; discriminate|].
-  exists w_fifo_entry_left. vm_compute. repeat split; try reflexivity. intros H. discriminate.
+  split; [exists w_unclean; vm|].
+  split; [exists w_fifo; vm|].
+  split; [exists w_link_target; vm|].
+  split; [exists w_dir_renamed; vm|].
+  exists w_fifo_entry_left. vm.
 Qed.
 (* the two repairs modelled by flags remove the first two *)
 Example all_removed_empty_fixed_witness : spec_of_model cfg_fixed w_unclean = [] ∧ spec_of_model cfg_fixed w_fifo = [].
-Proof. vm_compute. auto. Qed.
+Proof. vm. Qed.
 
 (* watch_end_closes_fd needs its hypotheses: a watch added through a symlink survives the deletion of its target,
    and the entries of a renamed directory keep their descriptors *)
 Definition w_link_deleted : list step := [SFs (OCreate "f"); SFs (OSymlink "f" "l"); SAdd "l"; SFs (OUnlink "f")].
 Theorem watch_end_closes_fd_refuted :
-  (∃ h, let s := run cfg_repo h st_init in is_Some (k_led (K s) !! 1) ∧ fails "deleted-file-descriptor-open" cfg_repo h = true)
-  ∧ (∃ h, let s := run cfg_repo h st_init in is_Some (k_led (K s) !! 2) ∧ api_list s = [] ∧ fails "all-removed-empty" cfg_repo h = true).
+  (∃ h, let s := run cfg_repo h st_init in ledger_list s = [(1, "f")] ∧ fails "deleted-file-descriptor-open" cfg_repo h = true)
+  ∧ (∃ h, let s := run cfg_repo h st_init in ledger_list s = [(2, "d/a")] ∧ api_list s = [] ∧ fails "all-removed-empty" cfg_repo h = true).
 Proof.
-  split; [exists w_link_deleted|exists w_dir_renamed]; vm_compute; repeat split; eauto.
+  split; [exists w_link_deleted|exists w_dir_renamed]; vm.
 Qed.
 
 (* ------------------------------------------------------------------ C18 *)
@@ -798,33 +800,34 @@ Theorem create_once_refuted :
   (∃ h, creates "d/p" (run cfg_repo h st_init) = 2%nat ∧ fails "create-once" cfg_repo h = true)
   ∧ (∃ h, creates "d/a" (run cfg_repo h st_init) = 2%nat ∧ creates "d/b" (run cfg_repo h st_init) = 0%nat
           ∧ fails "create-once" cfg_repo h = true ∧ fails "create-missed" cfg_repo h = true).
-Proof. split; [exists w_fifo_entry|exists w_dangling]; vm_compute; auto. Qed.
+Proof. split; [exists w_fifo_entry|exists w_dangling]; vm. Qed.
 
 Theorem preexisting_silent_refuted :
   ∃ h, creates "d/p" (run cfg_repo h st_init) = 1%nat ∧ fails "preexisting-silent" cfg_repo h = true.
-Proof. exists w_fifo_pre. vm_compute. auto. Qed.
+Proof. exists w_fifo_pre. vm. Qed.
 
 Theorem recreate_refuted :
   ∃ h, evs (run cfg_repo h st_init) = [] ∧ fails "recreate" cfg_repo h = true ∧ fails "remove-missed" cfg_repo h = true.
-Proof. exists w_link_entry. vm_compute. auto. Qed.
+Proof. exists w_link_entry. vm. Qed.
 
+(* removing the symlink entry d/l is not reported when it happens; its Remove arrives only when the TARGET d/f is deleted *)
 Theorem dir_removed_refuted :
-  ∃ h, rev (evs (run cfg_repo h st_init)) = [ {| e_name := "d/f"; e_op := Remove |}; {| e_name := "d/l"; e_op := Remove |}; {| e_name := "d"; e_op := Remove |} ]
+  ∃ h, rev (evs (run cfg_repo h st_init)) = [ {| e_name := "d/l"; e_op := Remove |}; {| e_name := "d/f"; e_op := Remove |}; {| e_name := "d"; e_op := Remove |} ]
        ∧ fails "remove-missed" cfg_repo h = true.
-Proof. exists w_dir_removed. vm_compute. auto. Qed.
+Proof. exists w_dir_removed. vm. Qed.
 
 Theorem names_user_spelling_refuted :
   ∃ h, api_list (run cfg_repo h st_init) = [] ∧ fails "names-user-spelling" cfg_repo h = true.
-Proof. exists w_failed_add. vm_compute. auto. Qed.
+Proof. exists w_failed_add. vm. Qed.
 
 (* and where none of the defect ingredients occurs the model meets every clause: bursts, name re-use, overwrite by
-   rename, two directories, unclean spelling of the Add, removal of the directory (bounded statements by evaluation) *)
+   rename, pre-existing entries, removal of the directory (a bounded statement, by evaluation) *)
 Definition h_plain : list step :=
-  [SFs (OMkdir "d"); SFs (OCreate "d/pre"); SAdd "./d//"; SFs (OCreate "d/a"); SFs (OWrite "d/a"); SFs (OChmod "d/a"); SFs (ORename "d/a" "d/b");
+  [SFs (OMkdir "d"); SFs (OCreate "d/pre"); SAdd "d"; SFs (OCreate "d/a"); SFs (OWrite "d/a"); SFs (OChmod "d/a"); SFs (ORename "d/a" "d/b");
    SFs (OUnlink "d/b"); SFs (OCreate "d/b"); SFs (OMkdir "d/s"); SFs (ORmdir "d/s"); SList;
    SHold; SFs (OCreate "d/x"); SFs (OCreate "d/y"); SFs (OCreate "d/z"); SFs (OUnlink "d/y"); SRelease;
    SHold; SFs (OUnlink "d/x"); SFs (OCreate "d/x"); SRelease;
    SFs (OCreate "d/o"); SFs (ORename "d/o" "d/x");
    SFs (OUnlink "d/pre"); SFs (OUnlink "d/b"); SFs (OUnlink "d/x"); SFs (OUnlink "d/z"); SFs (ORmdir "d"); SList].
 Example plain_history_meets_spec : spec_of_model cfg_repo h_plain = [] ∧ length (evs (run cfg_repo h_plain st_init)) = 22%nat.
-Proof. vm_compute. auto. Qed.
+Proof. vm. Qed.
